@@ -104,6 +104,16 @@ def _cases_core(rng, tier):
                      [0x63, _key(), 0xac, 0x67, bytes([7, 0]), 0xb2, 0x75, _key(), 0xac, 0x68]):
             yield "scr_raw " + _cmds_str(cmds), "template-standard"
             yield "scr_ser " + _cmds_str(cmds), "template-standard-ser"
+    # PUSHDATA2 pushes declaring 4 KiB … 64 KiB, complete and cut short by 1 … several thousand bytes (the end falling
+    # before, on and behind every 4096-byte boundary of the data): input that ends early is never accepted
+    for n_ in ([4097, 8192, 8193, 10000, 16385, 65535] if tier == "quick" else [521, 4096, 4097, 8191, 8192, 8193, 10000, 12289,
+                                                                                  16384, 16385, 32769, 65535]):
+        body = bytes([0x4d]) + n_.to_bytes(2, "little") + bytes((n_ + i) & 0xff for i in range(n_))
+        cuts = sorted(set([1, 2, 100, 1000, n_ % 4096 or 4096, (n_ % 4096) + 1, max(1, (n_ % 4096) - 1), n_ - 1, n_ // 2]))
+        for cut in [c_ for c_ in cuts if 0 < c_ <= n_][: (6 if tier == "quick" else 20)]:
+            part = body[:len(body) - cut]
+            yield "scr_parse " + hx(_varint_indep(len(body)) + part), "big-push-cut-short"
+        yield "scr_parse " + hx(_varint_indep(len(body)) + body), "big-push-complete"
     for b in range(0, 300):
         yield "scr_raw o%d" % b, "opcode-exhaustive"
     for n in BOUNDS:
